@@ -18,7 +18,8 @@ WORLD = dict(powers=[10, 10, 10, 5, 0, 0], nodes=[1, 2, 3], top=8,
 # a static set with unequal powers (another proposer rotation), thorough tier
 WORLD2 = dict(powers=[12, 9, 7, 5], nodes=[1, 2, 3], top=7)
 # genesis in the past: vote times are wall-clock, the median of a last commit depends on which precommits it holds
-WORLD_WALL = dict(powers=[10, 10, 10, 10], nodes=[1, 2, 3], top=6, genesis_unix=1700000000, iota_ns=1000)
+# (validator 4's private precommit moves the median of an observer's last commit; validator 5 is a second offender)
+WORLD_WALL = dict(powers=[10, 10, 10, 10, 3], nodes=[1, 2, 3], top=6, genesis_unix=1700000000, iota_ns=1000)
 
 
 def tla(x):
@@ -76,24 +77,28 @@ ItemsV == << E1, E2, Dve(4, 5, 1, 1, 2, 3),
              [Dve(1, 4, 1, 1, 2, 3) EXCEPT !.a.sig = 4, !.b.sig = 4],
              [E2 EXCEPT !.a.i = 1],
              Dve(5, 2, 1, 1, 2, 3),
-             Dve(5, 4, 2, 1, 2, 3) >>
+             Dve(5, 4, 2, 1, 2, 3),
+             Dve(4, 6, 1, 1, 2, 3),
+             Dve(5, 5, 1, 2, 0, 2) >>
 """
 ITEMS_DOC = ("items: 1 = validator 4 at height 2 (expires first), 2 = validator 4 at height 4 (nil / block precommits), 3 = validator 4 at "
              "height 5 (the height being decided at the start: reported by consensus before block 5 exists), 4 = item 2 with a junk second "
              "signature, 5 = correct validator 1 framed with votes signed by validator 4, 6 = item 2 with a wrong validator index, 7 = "
-             "validator 5 at height 2 (joins the set only at height 4), 8 = validator 5 at height 4")
+             "validator 5 at height 2 (joins the set only at height 4), 8 = validator 5 at height 4, 9 = validator 4 at height 6, 10 = validator 5 at "
+             "height 5 (second and third equivocations while their height is being decided); consensus reports 1, 2, 3, 8, 9, 10, and 2, 3, 9, "
+             "10 with ITS stamp (time off the block time, total of another set) which the pool has to replace by the facts of the height")
 
 
 def cfg_pool(top, ages, lists, l0, depth):
     return ("SPECIFICATION Spec\nCONSTANTS\n  Top = %d\n  Power <- PowerV\n  MaxAgeBlocks = %d\n  MaxAgeDur = %d\n  Items <- ItemsV\n"
-            "  ConsItems = {1, 2, 3, 8}\n  Lists <- ListsV\n  L0 = %d\n  Depth = %d\nVIEW View\nINVARIANT Inv\nACTION_CONSTRAINT Dump\n") % (
+            "  ConsItems = {1, 2, 3, 8, 9, 10}\n  RawItems = {2, 3, 9, 10}\n  Lists <- ListsV\n  L0 = %d\n  Depth = %d\nVIEW View\nINVARIANT Inv\nACTION_CONSTRAINT Dump\n") % (
         top, ages[0], ages[1], l0, depth)
 
 
-def cfg_net(top, ages, prop_name, maxh, eqh, kinds, maxev, maxrs):
-    return ("SPECIFICATION Spec\nCONSTANTS\n  Top = %d\n  Power <- PowerV\n  MaxAgeBlocks = %d\n  MaxAgeDur = %d\n  Nodes = {1, 2, 3}\n  Byz = 4\n"
+def cfg_net(top, ages, prop_name, maxh, eqh, kinds, maxev, maxrs, byzs=(4, 5)):
+    return ("SPECIFICATION Spec\nCONSTANTS\n  Top = %d\n  Power <- PowerV\n  MaxAgeBlocks = %d\n  MaxAgeDur = %d\n  Nodes = {1, 2, 3}\n  Byzs = %s\n  Priv = 4\n"
             "  Prop <- %s\n  MaxH = %d\n  EqHeights = %s\n  ObsSets <- ObsV\n  Kinds = %s\n  MaxEvents = %d\n  MaxRestarts = %d\n"
-            "INVARIANT Inv\nACTION_CONSTRAINT Dump\n") % (top, ages[0], ages[1], prop_name, maxh, tla(set(eqh)), tla(set(kinds)), maxev, maxrs)
+            "INVARIANT Inv\nACTION_CONSTRAINT Dump\n") % (top, ages[0], ages[1], tla(set(byzs)), prop_name, maxh, tla(set(eqh)), tla(set(kinds)), maxev, maxrs)
 
 
 def run(c):
@@ -172,15 +177,15 @@ def run(c):
         must_fail(c, c.tlc("evidence", "MCgen.cfg", module="MCgen", files=files, timeout=900, workers=4, tag="reach " + inv), "verify", inv)
 
     # ------------------------------------------------------------------ MC_EvidencePool
-    lists_full = "ListsV == {<<k>> : k \\in 1..8} \\cup {<<1,1>>, <<2,2>>, <<1,2>>, <<2,1>>, <<2,4>>, <<4,2>>, <<2,3>>, <<3,2>>}\n"
-    lists_small = "ListsV == {<<1>>, <<2>>, <<3>>, <<6>>, <<2,2>>, <<1,2>>, <<4,2>>}\n"
+    lists_full = "ListsV == {<<k>> : k \\in 1..10} \\cup {<<1,1>>, <<2,2>>, <<1,2>>, <<2,1>>, <<2,4>>, <<4,2>>, <<2,3>>, <<3,2>>}\n"
+    lists_small = "ListsV == {<<1>>, <<2>>, <<3>>, <<6>>, <<9>>, <<2,2>>, <<1,2>>, <<4,2>>}\n"
     pruns = [
         # tag, ages, lists, l0, depth, stride
         ("pool-blocksbind", AGES[1], lists_full, 4, 4, 3 if quick else 1),
         ("pool-durbinds", AGES[0], lists_small, 3, 4, 2 if quick else 1),
     ]
     if th:
-        pruns += [("pool-deep", AGES[1], lists_full, 4, 6, 2), ("pool-durbinds-deep", AGES[0], lists_full, 3, 5, 2)]
+        pruns += [("pool-deep", AGES[1], lists_full, 4, 5, 2), ("pool-durbinds-deep", AGES[0], lists_full, 3, 5, 2)]
     for tag, ages, lists, l0, depth, stride in pruns:
         files = mcgen("MC_EvidencePool", ITEMS + lists)
         files["MCgen.cfg"] = cfg_pool(top, ages, lists, l0, depth)
@@ -191,7 +196,7 @@ def run(c):
         c.absorb(c.gotest("evidence", "TestPoolReplay", env=e, timeout=4000, tag="replay " + tag))
         os.remove(dump)
 
-    for inv in ("NothingCommitted", "NoExpiredPending", "NoPruning"):
+    for inv in ("NothingCommitted", "NoExpiredPending", "NoPruning", "NoRawRestated"):
         files = mcgen("MC_EvidencePool", ITEMS + lists_small)
         files["MCgen.cfg"] = cfg_pool(top, AGES[1], lists_small, 4, 5).replace("ACTION_CONSTRAINT Dump\n", "") + "INVARIANT %s\n" % inv
         must_fail(c, c.tlc("evidence", "MCgen.cfg", module="MCgen", files=files, timeout=900, workers=4, tag="reach " + inv), "pool", inv)
@@ -223,7 +228,7 @@ def run(c):
         # another rotation: unequal powers, static set
         power2, prop2 = world_info(c, WORLD2, "unequal powers")
         files2 = {"MCgen.tla": "---- MODULE MCgen ----\nEXTENDS MC_EvidenceNet\nPowerV == %s\nPropV == %s\n%s====\n" % (tla(power2), tla(prop2), obs)}
-        files2["MCgen.cfg"] = cfg_net(WORLD2["top"], AGES[1], "PropV", 5, [2, 3, 4], [1, 2, 3, 5], 2, 1)
+        files2["MCgen.cfg"] = cfg_net(WORLD2["top"], AGES[1], "PropV", 5, [2, 3, 4], [1, 2, 3, 5], 2, 1, byzs=(4,))
         dump = os.path.join(c.scratch, "net-w2.dump")
         r = c.tlc("evidence", "MCgen.cfg", module="MCgen", files=files2, dump_to=dump, timeout=3000, workers=workers, tag="net unequal powers")
         must_hold(c, r, "net unequal powers")
@@ -233,13 +238,15 @@ def run(c):
 
     # the wall-clock world: private precommit before the equivocation
     power_w, prop_w = world_info(c, WORLD_WALL, "wall-clock")
-    files = {"MCgen.tla": "---- MODULE MCgen ----\nEXTENDS MC_EvidenceNet\nPowerV == %s\nPropV == %s\nObsV == {{1}, {2}, {3}, {1, 2}}\n====\n" %
+    files = {"MCgen.tla": "---- MODULE MCgen ----\nEXTENDS MC_EvidenceNet\nPowerV == %s\nPropV == %s\nObsV == {{1}, {2}, {3}}\n====\n" %
              (tla(power_w), tla(prop_w))}
-    files["MCgen.cfg"] = cfg_net(WORLD_WALL["top"], (100000, 100000), "PropV", 4 if quick else 5, [2, 3] if quick else [2, 3, 4], [4], 1 if quick else 2, 0)
+    # two (thorough: three) events per behaviour: the second equivocation comes while the pruning marks of the pool are
+    # those the first one left behind (late precommits and votes of the height being decided, either offender)
+    files["MCgen.cfg"] = cfg_net(WORLD_WALL["top"], (100000, 100000), "PropV", 5, [2, 3, 4], [2, 4], 2 if quick else 3, 0)
     dump = os.path.join(c.scratch, "net-wall.dump")
     r = c.tlc("evidence", "MCgen.cfg", module="MCgen", files=files, dump_to=dump, timeout=3000, workers=workers, tag="net wall-clock")
     must_hold(c, r, "net wall-clock")
-    e = dict(EV_WORLD=json.dumps(WORLD_WALL), EV_DUMP=dump, EV_STRIDE=1, EV_TAG="net-wall-clock")
+    e = dict(EV_WORLD=json.dumps(WORLD_WALL), EV_DUMP=dump, EV_STRIDE=(3 if quick else 5), EV_TAG="net-wall-clock")
     c.absorb(c.gotest("evidence", "TestNetReplay", env=e, timeout=3000, tag="real nodes: net wall-clock"))
     os.remove(dump)
     c.exhaustive = True
